@@ -4,7 +4,6 @@
 //! Part 2: breadth-first search to depth 40 with deduplication on an abstraction of the
 //! reference state (order-preserving renaming of versions, saturation of ages).
 
-use std::collections::BTreeMap;
 use std::time::Duration;
 
 use rayon::prelude::*;
@@ -90,111 +89,58 @@ pub fn op_from_json(v: &serde_json::Value) -> Option<Op> {
 
 // ------------------------------------------------------------------ reference model
 
-#[derive(Clone, Debug, PartialEq, Eq)]
-pub struct RefEntry {
-    pub value: String,
-    pub version: u64,
-    pub status: u8,     // 0 set 1 deleted 2 ttl
-    pub since: u64,     // ms timestamp of the deletion mark (status != 0)
+pub use crate::refmodel::RefMap;
+use crate::refmodel::{Call, RefEntry};
+
+pub fn ref_apply(r: &mut RefMap, op: Op) {
+    match op {
+        Op::Set(k, v) => {
+            r.call(Call::Set, KEYS[k as usize], VALUES[v as usize]);
+        }
+        Op::SetTtl(k, v) => {
+            r.call(Call::SetTtl, KEYS[k as usize], VALUES[v as usize]);
+        }
+        Op::Delete(k) => {
+            r.call(Call::Delete, KEYS[k as usize], "");
+        }
+        Op::DeleteTtl(k) => {
+            r.call(Call::DeleteTtl, KEYS[k as usize], "");
+        }
+        Op::AdvAlmost => r.advance(G_MS - 1),
+        Op::AdvOne => r.advance(1),
+        Op::Gc => r.gc(G_MS),
+    }
 }
 
-#[derive(Clone, Debug, Default, PartialEq, Eq)]
-pub struct RefMap {
-    pub entries: BTreeMap<String, RefEntry>,
-    pub mv: u64,
-    pub gc: u64,
-    pub now: u64,
-}
-
-impl RefMap {
-    pub fn apply(&mut self, op: Op) {
-        match op {
-            Op::Set(k, v) => {
-                let (k, v) = (KEYS[k as usize], VALUES[v as usize]);
-                if let Some(e) = self.entries.get(k) {
-                    if e.value == v && e.status == 0 {
-                        return;
-                    }
-                }
-                self.mv += 1;
-                self.entries.insert(k.to_string(), RefEntry { value: v.to_string(), version: self.mv, status: 0, since: 0 });
-            }
-            Op::SetTtl(k, v) => {
-                let (k, v) = (KEYS[k as usize], VALUES[v as usize]);
-                if let Some(e) = self.entries.get(k) {
-                    if e.value == v && e.status == 2 {
-                        return;
-                    }
-                }
-                self.mv += 1;
-                self.entries.insert(k.to_string(), RefEntry { value: v.to_string(), version: self.mv, status: 2, since: self.now });
-            }
-            Op::Delete(k) => {
-                let k = KEYS[k as usize];
-                if !self.entries.contains_key(k) {
-                    return;
-                }
-                self.mv += 1;
-                self.entries.insert(k.to_string(), RefEntry { value: String::new(), version: self.mv, status: 1, since: self.now });
-            }
-            Op::DeleteTtl(k) => {
-                let k = KEYS[k as usize];
-                let Some(old) = self.entries.get(k).cloned() else { return };
-                self.mv += 1;
-                self.entries.insert(k.to_string(), RefEntry { value: old.value, version: self.mv, status: 2, since: self.now });
-            }
-            Op::AdvAlmost => self.now += G_MS - 1,
-            Op::AdvOne => self.now += 1,
-            Op::Gc => {
-                let now = self.now;
-                let mut gc = self.gc;
-                self.entries.retain(|_, e| {
-                    if e.status != 0 && now >= e.since + G_MS {
-                        gc = gc.max(e.version);
-                        false
-                    } else {
-                        true
-                    }
-                });
-                self.gc = gc;
-            }
+/// Abstraction used for deduplication in part 2.
+fn abstract_key(r: &RefMap) -> u128 {
+    // versions -> ranks among {entry versions, gc, mv}; ages -> {0, small, G-1, >=G}
+    let mut vs: Vec<u64> = r.entries.values().map(|e| e.version).collect();
+    vs.push(r.gc);
+    vs.push(r.mv);
+    vs.sort();
+    vs.dedup();
+    let rank = |v: u64| vs.binary_search(&v).unwrap() as u8;
+    let age_class = |e: &RefEntry| -> u8 {
+        if e.status == 0 {
+            return 0;
         }
-    }
-
-    fn visible(&self) -> Vec<(String, String)> {
-        self.entries.iter().filter(|(_, e)| e.status != 1).map(|(k, e)| (k.clone(), e.value.clone())).collect()
-    }
-
-    /// Abstraction used for deduplication in part 2.
-    fn abstract_key(&self) -> u128 {
-        // versions -> ranks among {entry versions, gc, mv}; ages -> {0, small, G-1, >=G}
-        let mut vs: Vec<u64> = self.entries.values().map(|e| e.version).collect();
-        vs.push(self.gc);
-        vs.push(self.mv);
-        vs.sort();
-        vs.dedup();
-        let rank = |v: u64| vs.binary_search(&v).unwrap() as u8;
-        let age_class = |e: &RefEntry| -> u8 {
-            if e.status == 0 {
-                return 0;
-            }
-            let age = self.now - e.since;
-            if age == 0 {
-                1
-            } else if age >= G_MS {
-                4
-            } else if age == G_MS - 1 {
-                3
-            } else {
-                2
-            }
-        };
-        let mut items: Vec<(String, String, u8, u8, u8)> = vec![];
-        for (k, e) in &self.entries {
-            items.push((k.clone(), e.value.clone(), e.status, rank(e.version), age_class(e)));
+        let age = r.now - e.since;
+        if age == 0 {
+            1
+        } else if age >= G_MS {
+            4
+        } else if age == G_MS - 1 {
+            3
+        } else {
+            2
         }
-        hash128(&(items, rank(self.gc), rank(self.mv), self.gc == 0))
+    };
+    let mut items: Vec<(String, String, u8, u8, u8)> = vec![];
+    for (k, e) in &r.entries {
+        items.push((k.clone(), e.value.clone(), e.status, rank(e.version), age_class(e)));
     }
+    hash128(&(items, rank(r.gc), rank(r.mv), r.gc == 0))
 }
 
 // ------------------------------------------------------------------ real side
@@ -296,7 +242,7 @@ pub fn run_sequence(seq: &[Op], every: bool) -> Result<RefMap, (String, usize)> 
         if let Err(p) = res {
             return Err((format!("panic: {p}"), i));
         }
-        r.apply(*op);
+        ref_apply(&mut r, *op);
         if every || i + 1 == seq.len() {
             match guarded(|| real.compare(&r)) {
                 Ok(Ok(())) => {}
@@ -434,7 +380,7 @@ pub fn bfs(property: &str, nkeys: usize, max_depth: usize, max_states: usize, de
     );
     part.bounds = json!({"keys": &KEYS[..nkeys], "values": VALUES, "max_depth": max_depth, "max_states": max_states});
     let mut seen: std::collections::HashSet<u128> = Default::default();
-    seen.insert(RefMap::default().abstract_key());
+    seen.insert(abstract_key(&RefMap::default()));
     let mut frontier: Vec<Vec<Op>> = vec![vec![]];
     let mut depth = 0;
     let mut states = 1u64;
@@ -455,7 +401,7 @@ pub fn bfs(property: &str, nkeys: usize, max_depth: usize, max_states: usize, de
                     h.push(*op);
                     n += 1;
                     match run_sequence(&h, false) {
-                        Ok(r) => succ.push((r.abstract_key(), h)),
+                        Ok(r) => succ.push((abstract_key(&r), h)),
                         Err((e, _)) => viol.push((e, h)),
                     }
                 }
